@@ -88,18 +88,22 @@ def _svd_rows_disjoint(M):
     if len(nz) > k:
         return None
     items = []
+    numerically_zero = []
     for i, s in nz:
         n2 = _norm2(M[i, :])
-        items.append((n2, i))
+        sv = A.sqrt(n2)          # sign-free entries: forks on "row is numerically zero"
+        if _is0(sv):
+            numerically_zero.append(i)
+            continue
+        items.append((n2, i, sv))
     items = _sort_desc(items)
     S = _obj((k,))
     U = _obj((m, k))
     V = _obj((k, n))
-    zero_rows = [i for i, s in rows if not s]
+    zero_rows = [i for i, s in rows if not s] + numerically_zero
     zero_cols = [j for j in range(n) if j not in used]
     c = 0
-    for n2, i in items:
-        sv = A.sqrt(n2)
+    for n2, i, sv in items:
         S[c] = sv
         e = A.new_sign('sg') if SIGNS else 1
         U[i, c] = e
